@@ -170,6 +170,27 @@ def run_case(case):
     with structured((sum(case["rs"]) // 3) % 10 if sum(case["rs"]) % 2 else 0):
         data = relayout(draw(dshape, case["dd"]), lay if lay < 4 else 0)
         filt = relayout(draw(fshape, case["df"]), lay - 4 if lay >= 4 else 0)
+    if multi and sum(case["rs"]) % 7 == 5 and filt.ndim >= 3 and min(filt.shape[:2]) >= 1:
+        # a filter bank applied to every input channel (or one filter for every output
+        # channel), handed over as a np.broadcast_to view: zero stride along one channel axis
+        ax_ = (sum(case["rs"]) // 7) % 2
+        one_ = filt[:, :1] if ax_ == 1 else filt[:1]
+        filt = np.broadcast_to(one_, filt.shape)
+        sig_bc = "|broadcast-filter%d" % ax_
+    else:
+        sig_bc = ""
+    if not multi and sum(case["rs"]) % 7 == 6 and int(np.prod(m)) >= 64 and \
+            data.dtype.kind in "fc":
+        # a sparse spike train: a few non-zero samples, two of them next to each other (closer
+        # than the filter is long)
+        sp_ = np.zeros_like(data)
+        flat_ = sp_.reshape(sp_.shape[:len(sp_.shape) - D] + (-1,))
+        j0 = int(rng.integers(0, flat_.shape[-1] - 1))
+        flat_[..., j0] = 1.5
+        flat_[..., j0 + 1] = -0.75
+        flat_[..., int(rng.integers(0, flat_.shape[-1]))] += 2.0
+        data = sp_
+        sig_bc += "|spikes"
     if case["dd"] == "uint8" and np.dtype(case["df"]).kind in "iu":
         filt = np.abs(filt)           # (unsigned counts with non-negative taps: no wrap-around)
     integer = data.dtype.kind in "iu" and filt.dtype.kind in "iu"
@@ -192,6 +213,7 @@ def run_case(case):
                              len(case["batch"]), case["dd"][0] + case["df"][0], case["via"]]))
     wit = {k: case[k] for k in ("m", "n", "mode", "strides", "multi", "ci", "co", "batch",
                                 "dd", "df", "via")}
+    sig += sig_bc
     defined = mode == "full" or ge or le
     kw = dict(mode=mode, strides=vary_seq(strides, (sum(case["rs"]) // 5) % 8),
               multi_channel=multi)
@@ -287,6 +309,9 @@ def run_case(case):
     fc = crandn(rng, fshape, np.complex128 if mix in (0, 2, 3) else np.float64)
     y = crandn(rng, ref.shape, np.complex128 if mix in (0, 2) else np.float64)
     dc, fc = dc * md, fc * mf
+    if "broadcast-filter" in sig_bc:
+        ax_ = int(sig_bc.split("broadcast-filter")[1][0])
+        fc = np.broadcast_to(fc[:, :1] if ax_ == 1 else fc[:1], fc.shape)
     try:
         out = sp.convolve(dc, fc, **kw)
         if sum(case["rs"]) % 4 == 1:
@@ -339,7 +364,7 @@ def run_case(case):
         if out2.shape != out.shape or not np.array_equal(out2, out):
             return violated(sig, "the same convolution gives another result after rejected "
                             "calls in between", wit, mech="history-after-failure")
-    if sum(case["rs"]) % 3 == 1:
+    if sum(case["rs"]) % 3 == 1 and fc.flags.writeable:
         # history: the caller updates its operand arrays in place (the next filter estimate of
         # an alternating minimisation, the next frame) and calls again with the SAME objects:
         # identical to calls on fresh copies of the new values
